@@ -23,6 +23,9 @@ cases={
 "sliceform": (ctl("sliceform","// @Method(POST)\n// @Route(/x)\n// @FormField(f)\nfunc (c *C) M(f []string) error { return nil }\n"),"reject"),
 "slicequery": (ctl("slicequery","// @Method(GET)\n// @Route(/x)\n// @Query(q)\nfunc (c *C) M(q []string) error { return nil }\n"),"accept"),
 "structquery": (ctl("structquery","type B struct{ X int }\n\n// @Method(GET)\n// @Route(/x)\n// @Query(q)\nfunc (c *C) M(q B) error { return nil }\n"),"reject"),
+"dupalias": (ctl("dupalias","// @Method(GET)\n// @Route(/items/{id})\n// @Path(first, { name: \"id\" })\n// @Path(second, { name: \"id\" })\nfunc (c *C) M(first string, second string) error { return nil }\n"),"reject"),
+"swapalias": (ctl("swapalias","// @Method(GET)\n// @Route(/swap/{a}/{b})\n// @Path(a, { name: \"b\" })\n// @Path(b, { name: \"a\" })\nfunc (c *C) M(a string, b string) error { return nil }\n"),"accept"),
+"blockdoc": ("package blockdoc\n\nimport \"github.com/gopher-fleece/runtime\"\n\n/*\nA controller documented with a block comment and no tag annotation at all,\nspread over several lines so that its end lies on a later line than its start.\n@Route(/c)\n*/\ntype C struct {\n\truntime.GleeceController\n}\n\n// @Method(GET)\n// @Route(/x)\n// @Security(schemeA, { scopes: [\"read\"] })\nfunc (c *C) M() error { return nil }\n","accept"),
 "warnonly": (ctl("warnonly","// @Method(GET)\n// @Route(/x)\nfunc (c *C) M() error { return nil }\n\n// @Method(GET)\n// @Route(/x)\nfunc (c *C) M2() error { return nil }\n"),"accept"),
 }
 for n,(src,exp) in cases.items():
